@@ -71,7 +71,14 @@ class Sym:
                 fe = self.operand(f, depth)
                 return ("call", ("indirect", fe), tuple(self.operand(a, depth) for a in node["args"]))
             name = ci.get("resolved") or ci["fn"]
-            return ("call", name, tuple(self.operand(a, depth) for a in node["args"]), _targs(ci))
+            e = ("call", name, tuple(self.operand(a, depth) for a in node["args"]), _targs(ci))
+            # a call through a `&mut` argument is not a pure function of its rendered operands:
+            # tag it with its site so that two such calls are different values
+            for a in node["args"]:
+                if a["k"] in ("copy", "move") and self.b.local_ty(a["p"]["local"]).startswith("&mut ") and not a["p"]["proj"]:
+                    e = e + (("site", b),)
+                    break
+            return e
         r = node["r"]
         return self.rvalue(r, depth)
 
